@@ -169,6 +169,13 @@ func DominatedBy(root *ssa.BasicBlock) func(*ssa.BasicBlock) bool {
 // ExtractTableFrom starts the analysis at block root (nil = entry): conditions
 // are relative to reaching root.
 func ExtractTableFrom(fn *ssa.Function, root *ssa.BasicBlock, include func(*ssa.BasicBlock) bool) *Table {
+	return ExtractTableFromExtra(fn, root, include)
+}
+
+// ExtractTableFromExtra additionally makes the given values atoms (values that
+// enter the region from outside and are only used as phi operands of blocks
+// outside the region, e.g. a flag carried around a loop).
+func ExtractTableFromExtra(fn *ssa.Function, root *ssa.BasicBlock, include func(*ssa.BasicBlock) bool, extra ...ssa.Value) *Table {
 	t := &Table{Fn: fn, val: map[ssa.Value]TT{}, cond: map[*ssa.BasicBlock]TT{}, back: map[[2]*ssa.BasicBlock]bool{}, include: include, root: root}
 	if root == nil && fn != nil && len(fn.Blocks) > 0 {
 		t.root = fn.Blocks[0]
@@ -229,12 +236,10 @@ func ExtractTableFrom(fn *ssa.Function, root *ssa.BasicBlock, include func(*ssa.
 			}
 		}
 		k := Key(v)
-		if u, ok := v.(*ssa.UnOp); ok && u.Op == token.MUL {
-			// load of a bool variable/field: equal keys are equal only when
-			// nothing in the function stores to that path
-			if stored[k] {
-				k = fmt.Sprintf("%s@%s", k, v.Name())
-			}
+		// equal keys denote equal values only when nothing in the function
+		// stores to a path the expression loads from
+		if readsStored(v, stored, 0) {
+			k = fmt.Sprintf("%s@%s", k, v.Name())
 		}
 		if _, ok := v.(*ssa.Phi); ok {
 			k = fmt.Sprintf("loopphi:%s", v.Name())
@@ -244,6 +249,9 @@ func ExtractTableFrom(fn *ssa.Function, root *ssa.BasicBlock, include func(*ssa.
 			t.Atoms = append(t.Atoms, k)
 			t.atomV = append(t.atomV, v)
 		}
+	}
+	for _, e := range extra {
+		discover(e)
 	}
 	for _, b := range fn.Blocks {
 		if include != nil && !include(b) {
@@ -353,7 +361,7 @@ func ExtractTableFrom(fn *ssa.Function, root *ssa.BasicBlock, include func(*ssa.
 
 func (t *Table) atomOf(v ssa.Value, keyIdx map[string]int, stored map[string]bool) TT {
 	k := Key(v)
-	if u, ok := v.(*ssa.UnOp); ok && u.Op == token.MUL && stored[k] {
+	if readsStored(v, stored, 0) {
 		k = fmt.Sprintf("%s@%s", k, v.Name())
 	}
 	if _, ok := v.(*ssa.Phi); ok {
@@ -415,6 +423,74 @@ func isBool(t types.Type) bool {
 	return ok && b.Info()&types.IsBoolean != 0
 }
 
+// readsStored reports whether the expression v loads from a path that the
+// function also stores to (two syntactically equal expressions may then differ).
+func readsStored(v ssa.Value, stored map[string]bool, d int) bool {
+	if v == nil || d > 12 {
+		return false
+	}
+	switch x := v.(type) {
+	case *ssa.UnOp:
+		if x.Op == token.MUL {
+			if _, isAlloc := x.X.(*ssa.Alloc); !isAlloc && stored[Key(x.X)] {
+				return true
+			}
+			if a, isAlloc := x.X.(*ssa.Alloc); isAlloc && stored[Key(a)] && a.Comment != "" {
+				// a local variable that escapes to the heap (captured or address taken): assigned more than once?
+				return storedTwice(a)
+			}
+		}
+		return readsStored(x.X, stored, d+1)
+	case *ssa.BinOp:
+		return readsStored(x.X, stored, d+1) || readsStored(x.Y, stored, d+1)
+	case *ssa.Call:
+		for _, a := range x.Call.Args {
+			if readsStored(a, stored, d+1) {
+				return true
+			}
+		}
+		if x.Call.IsInvoke() {
+			return readsStored(x.Call.Value, stored, d+1)
+		}
+		return false
+	case *ssa.FieldAddr:
+		return readsStored(x.X, stored, d+1)
+	case *ssa.Field:
+		return readsStored(x.X, stored, d+1)
+	case *ssa.Extract:
+		return readsStored(x.Tuple, stored, d+1)
+	case *ssa.Lookup:
+		return readsStored(x.X, stored, d+1) || readsStored(x.Index, stored, d+1)
+	case *ssa.Index:
+		return readsStored(x.X, stored, d+1) || readsStored(x.Index, stored, d+1)
+	case *ssa.IndexAddr:
+		return readsStored(x.X, stored, d+1) || readsStored(x.Index, stored, d+1)
+	case *ssa.TypeAssert:
+		return readsStored(x.X, stored, d+1)
+	case *ssa.Convert:
+		return readsStored(x.X, stored, d+1)
+	case *ssa.ChangeType:
+		return readsStored(x.X, stored, d+1)
+	case *ssa.ChangeInterface:
+		return readsStored(x.X, stored, d+1)
+	case *ssa.MakeInterface:
+		return readsStored(x.X, stored, d+1)
+	case *ssa.Slice:
+		return readsStored(x.X, stored, d+1)
+	}
+	return false
+}
+
+func storedTwice(a *ssa.Alloc) bool {
+	n := 0
+	for _, r := range *a.Referrers() {
+		if st, ok := r.(*ssa.Store); ok && st.Addr == a {
+			n++
+		}
+	}
+	return n > 1
+}
+
 func storedKeys(fn *ssa.Function) map[string]bool {
 	m := map[string]bool{}
 	for _, b := range fn.Blocks {
@@ -434,6 +510,15 @@ func (t *Table) ValueTT(v ssa.Value) TT { return t.valOf(v) }
 func (t *Table) BlockCond(b *ssa.BasicBlock) (TT, bool) {
 	c, ok := t.cond[b]
 	return c, ok
+}
+
+// EdgeCond is the condition under which control flows from p to its successor b
+// (also valid for back edges).
+func (t *Table) EdgeCond(p, b *ssa.BasicBlock) (TT, bool) {
+	if _, ok := t.cond[p]; !ok {
+		return TT{}, false
+	}
+	return t.edgeCond(p, b, t.valOf), true
 }
 
 // InstrCond is the condition under which instruction in executes.
@@ -463,6 +548,18 @@ func (t *Table) BoolResult(i int) (result TT, returns TT) {
 	return
 }
 
+// StripVersion removes the @tN suffix that distinguishes syntactically equal
+// expressions whose operands may be overwritten in between.
+func StripVersion(k string) string {
+	if i := strings.LastIndex(k, "@t"); i >= 0 {
+		rest := k[i+2:]
+		if rest != "" && strings.Trim(rest, "0123456789") == "" {
+			return k[:i]
+		}
+	}
+	return k
+}
+
 // Binding maps specification variable names to atom indexes.
 type Binding struct {
 	Names []string // index = atom number; "" = unbound
@@ -480,7 +577,7 @@ func (t *Table) Bind(match map[string]func(key string) bool) (*Binding, error) {
 	used := map[string]int{}
 	for i, k := range t.Atoms {
 		for _, n := range names {
-			if match[n](k) {
+			if match[n](k) || match[n](StripVersion(k)) {
 				if b.Names[i] != "" {
 					return nil, fmt.Errorf("atom %q matches both %s and %s", k, b.Names[i], n)
 				}
@@ -515,6 +612,37 @@ func (t *Table) Compare(got TT, b *Binding, spec func(v map[string]bool) bool, c
 		}
 		if care != nil && !care(v) {
 			continue
+		}
+		rows++
+		want := spec(v)
+		if got.Row(r) != want {
+			var parts []string
+			for i := 0; i < n; i++ {
+				nm := b.Names[i]
+				if nm == "" {
+					nm = "«" + t.Atoms[i] + "»"
+				}
+				parts = append(parts, fmt.Sprintf("%s=%v", nm, r>>uint(i)&1 == 1))
+			}
+			return false, fmt.Sprintf("row {%s}: code gives %v, specification %v", strings.Join(parts, " "), got.Row(r), want), rows
+		}
+	}
+	return true, "", rows
+}
+
+// CompareUnder is Compare restricted to the rows where under is true.
+func (t *Table) CompareUnder(got, under TT, b *Binding, spec func(v map[string]bool) bool) (ok bool, diff string, rows int) {
+	n := t.n
+	total := 1 << uint(n)
+	for r := 0; r < total; r++ {
+		if !under.Row(r) {
+			continue
+		}
+		v := map[string]bool{}
+		for i := 0; i < n; i++ {
+			if b.Names[i] != "" {
+				v[b.Names[i]] = r>>uint(i)&1 == 1
+			}
 		}
 		rows++
 		want := spec(v)
